@@ -15,6 +15,7 @@ def run(ctx):
     rg.run_tables(ctx, "R07.1e", "R07.1i")
     rg.rule_units(ctx, "R07.2")
     rg.rule_closure(ctx, "R07.3")
+    rg.rule_required_options(ctx, "R07.11")
     from rules import convrules as cv
     cv.run(ctx, "R07.9", ("layout21raw::gds::",), {"p": 20, "t": 5, "w": 10})
     # nets come back by testing which shapes contain the label point; a polygon must not come back as another shape
